@@ -84,7 +84,7 @@ pub open spec fn hplus(h: H, k: int) -> H { match h { H::At(v) => H::At(v + k), 
 /// a piece of code that starts at height `pre` ends at height pre + k on every path that falls out of its end (it
 /// may have no such path: Dead)
 pub open spec fn hstep(pre: H, post: H, k: int) -> bool {
-    match pre { H::At(v) => post is Dead || post == H::At(v + k), H::Dead => post is Dead, H::Conflict => true }
+    match pre { H::At(v) => post is Dead || post == H::At(v + k), H::Dead => post is Dead, H::Conflict => post is Dead || post is Conflict }
 }
 /// two flows meet at one position (a forward jump lands at the current end of the code)
 pub open spec fn hjoin(a: H, b: H) -> H {
@@ -95,3 +95,18 @@ pub open spec fn hjoin(a: H, b: H) -> H {
         _ => H::Conflict,
     }
 }
+
+/// how many values an opcode takes from the operand stack before it pushes its result (operand-dependent part of
+/// Call / Array / CallBuiltin is checked by the arm that emits the operand). PROVED on the machine side: these are
+/// the `stack@.len() >= ..` preconditions of the arms in unit c02_arms (each arm pops at most this many).
+pub open spec fn op_needs(op: OpCode) -> int {
+    match op {
+        OpCode::Pop | OpCode::SetLocal | OpCode::SetGlobal | OpCode::JumpIfFalse | OpCode::Not | OpCode::Negate | OpCode::ReturnValue => 1,
+        OpCode::Add | OpCode::Subtract | OpCode::Multiply | OpCode::Divide | OpCode::Modulo | OpCode::Lt | OpCode::Lte | OpCode::Gt | OpCode::Gte
+        | OpCode::Eq | OpCode::Neq | OpCode::And | OpCode::Or | OpCode::IndexGet => 2,
+        OpCode::IndexSet => 3,
+        _ => 0,
+    }
+}
+/// the static height covers what an instruction pops (dead code pops nothing at run time)
+pub open spec fn hcovers(h: H, k: int) -> bool { match h { H::At(v) => v >= k, _ => true } }
